@@ -223,6 +223,19 @@ func (p *rigPlugin) HandleConnAccept(conn net.Conn) (net.Conn, bool) {
 	return conn, atomic.LoadInt32(&rejectAccept) == 0
 }
 
+type rigObserver struct{ seen int64 }
+
+func (p *rigObserver) PostReadRequest(ctx context.Context, r *protocol.Message, e error) error {
+	atomic.AddInt64(&p.seen, 1)
+	return nil
+}
+
+func (p *rigObserver) PreCall(ctx context.Context, serviceName, methodName string, args interface{}) (interface{}, error) {
+	return args, nil
+}
+
+func (p *rigObserver) HandleConnAccept(conn net.Conn) (net.Conn, bool) { return conn, true }
+
 var wrapChunky int32
 
 // chunkyConn models a transport that splits one Write into several pieces and delays
@@ -318,6 +331,9 @@ func newSrvRig(o srvOpts) (*srvRig, error) {
 		return ctx.Write(&rp)
 	})
 	s.Plugins.Add(&rigPlugin{r})
+	// an observer registered BEHIND the rejecting plugin (metrics, tracing, access log): it accepts
+	// everything and must not be able to undo a rejection
+	s.Plugins.Add(&rigObserver{})
 	if o.auth {
 		s.AuthFunc = func(ctx context.Context, req *protocol.Message, token string) error {
 			if token == "good" {
